@@ -163,6 +163,10 @@ pub fn gen_c01(c: &mut Ctx) {
                     p!(c, "bin {} {} 8 {} {}", ty, op, a.show(), a.show());
                     p!(c, "bin {} {} 9 {} {}", ty, op, a.show(), a.show());
                     p!(c, "bin {} {} {} {} {}", ty, op, f, a.show(), a.show());
+                    // operands stored inline at addresses 8 bytes apart modulo 16 (forms 10..13)
+                    for f in 10..14 {
+                        p!(c, "bin {} {} {} {} {}", ty, op, f, a.show(), b.show());
+                    }
                 }
             }
         }
@@ -451,6 +455,63 @@ pub fn gen_c08(c: &mut Ctx) {
             }
         }
     }
+    gen_itera(c);
+}
+
+/// the provided methods of `Iterator` on `all_functions()` (seeds C08-j, C02-j: `nth` overridden
+/// with a jump that is wrong at the end of the run): every kind at the start, in the middle, at
+/// and beyond the end
+pub fn gen_itera(c: &mut Ctx) {
+    let saved = c.enter("itera");
+    for n in 0..=8usize {
+        for ty in types_for(n) {
+            let total: Option<usize> = if n <= 4 { Some(1usize << (1usize << n)) } else { None };
+            let mut ab: Vec<(usize, usize)> = vec![(0, 0), (0, 1), (1, 0), (2, 3), (0, 7), (5, 60)];
+            ab.push((c.rng.below(50), c.rng.below(1000)));
+            if let Some(tot) = total {
+                for d in [tot - 2, tot - 1, tot, tot + 1, tot + 5, 2 * tot, 2 * tot + 3] {
+                    ab.push((0, d));
+                    ab.push((1, d.saturating_sub(1)));
+                    if d >= tot - 1 {
+                        ab.push((tot - 1, d - (tot - 1)));
+                    }
+                }
+                ab.push((tot, 0));
+                ab.push((tot + 2, 1));
+            } else if n == 5 {
+                ab.push((0, 70000));
+            }
+            for (a, b) in &ab {
+                p!(c, "itera {} {} {} nth {}", ty, n, a, b);
+                p!(c, "itera {} {} {} skip {}", ty, n, a, b);
+            }
+            let mut steps: Vec<usize> = vec![1, 2, 3, 5, 64];
+            if let Some(tot) = total {
+                steps.extend([tot - 1, tot, tot + 1, (tot + 1) / 2, tot / 4 + 1]);
+            }
+            for st in steps {
+                if st >= 1 {
+                    p!(c, "itera {} {} 0 stepby {}", ty, n, st);
+                    p!(c, "itera {} {} 1 stepby {}", ty, n, st);
+                }
+            }
+            if let Some(tot) = total {
+                if n <= 3 || c.thorough {
+                    for a in [0usize, 1, tot / 2, tot - 1, tot, tot + 1] {
+                        for kind in ["count", "last", "max", "min", "fold", "hint"] {
+                            p!(c, "itera {} {} {} {} 0", ty, n, a, kind);
+                        }
+                    }
+                } else {
+                    for kind in ["count", "last"] {
+                        p!(c, "itera {} {} 0 {} 0", ty, n, kind);
+                        p!(c, "itera {} {} {} {} 0", ty, n, tot.saturating_sub(3), kind);
+                    }
+                }
+            }
+        }
+    }
+    c.leave(saved);
 }
 
 fn hexstr_of(t: &Tab) -> String {
@@ -651,6 +712,33 @@ pub fn gen_c07(c: &mut Ctx) {
                 }
                 c.leave(saved);
             }
+            // words built from halves that are zero, all ones, or a SMALLER table zero-extended:
+            // sub-functions of different levels whose tables are the same number (seed C07-j:
+            // levels 1..5 deduplicated in one vector, told apart by a marker bit that level 5
+            // cannot carry: `x5 ? NOR(x4..x0) : x4 & x3` loses a node)
+            if n >= 3 {
+                let saved = c.enter(&format!("C07-nested-{}-{}", n, ty));
+                let cnt = if c.thorough { 60 } else { 16 };
+                for k in 0..cnt {
+                    let nt = 1 + (k % 3);
+                    let mut pool: Vec<u64> = Vec::new();
+                    let mut tabs: Vec<String> = Vec::new();
+                    for _ in 0..nt {
+                        let mut t = Tab::zero(n);
+                        for w in t.w.iter_mut() {
+                            *w = if !pool.is_empty() && c.rng.below(3) == 0 {
+                                *c.rng.pick(&pool)
+                            } else {
+                                nested_word(&mut c.rng, 64.min(1usize << n))
+                            };
+                            pool.push(*w);
+                        }
+                        tabs.push(t.show());
+                    }
+                    p!(c, "bdd {} {} {}", ty, n, tabs.join(" "));
+                }
+                c.leave(saved);
+            }
             // functions of few top/bottom variables: level boundaries 5/6
             for _ in 0..reps / 2 {
                 if n >= 2 {
@@ -675,6 +763,24 @@ pub fn gen_c07(c: &mut Ctx) {
                 }
             }
         }
+    }
+}
+
+/// a table of `bits` bits built from halves: zero, all ones, a smaller table zero-extended, or two
+/// nested halves - so that sub-tables of different widths coincide as numbers
+fn nested_word(r: &mut Rng, bits: usize) -> u64 {
+    if bits == 1 {
+        return r.next() & 1;
+    }
+    let h = bits / 2;
+    let ones = |b: usize| if b >= 64 { u64::MAX } else { (1u64 << b) - 1 };
+    match r.below(10) {
+        0 | 1 => 0,
+        2 => ones(bits),
+        3 | 4 => nested_word(r, h),                // smaller table, zero-extended
+        5 => nested_word(r, h) << h,               // ... in the upper half
+        6 => (ones(h) << h) | nested_word(r, h),   // upper half constant one
+        _ => (nested_word(r, h) << h) | nested_word(r, h),
     }
 }
 
@@ -832,6 +938,17 @@ pub fn gen_c04(c: &mut Ctx) {
         }
         c.leave(saved);
     }
+    {
+        // P canonization of 8 variables is cheap (40320 swaps): both types, in every tier
+        let saved = c.enter("C04-p8");
+        for k in 0..4 {
+            let t = if k % 2 == 0 { gen_tab(&mut c.rng, 8) } else { Tab::from_fn(8, |m| (m >> 7) & 1 != 0 && (m & 5) == 4) };
+            let t = if k == 3 { Tab::from_fn(8, |m| (m.count_ones() + (m >> 7) as u32) % 3 == 0) } else { t };
+            p!(c, "pcanon D {}", t.show());
+            p!(c, "pcanon S {}", t.show());
+        }
+        c.leave(saved);
+    }
     for (n, cnt) in plan {
         for k in 0..cnt {
             let mut t = gen_tab(&mut c.rng, n);
@@ -887,6 +1004,9 @@ pub fn gen_c10(c: &mut Ctx) {
     gen_c08(&mut sub);
     gen_c09(&mut sub);
     gen_c11(&mut sub);
+    // canonization: representatives and certificates of both types (seed C10-j: a walk cache shared
+    // by all LutN sizes)
+    gen_c04(&mut sub);
     // every line: sampling the paired lines made the detection of type-specific changes depend on
     // which lines happened to be kept (seeded changes C10-a, C10-c were caught or missed by luck)
     let keep_every = 1;
@@ -983,6 +1103,7 @@ fn hist_token(r: &mut Rng, n: usize, allow_canon: bool) -> String {
 }
 
 pub fn gen_c02(c: &mut Ctx) {
+    gen_itera(c);
     // values of different sizes never compare equal, whatever their blocks are
     for n1 in 0..=7usize {
         for n2 in 0..=7usize {
@@ -1650,7 +1771,7 @@ pub fn gen_c17(c: &mut Ctx) {
                 // every operator in every syntactic form (owned / borrowed operands, named and
                 // assigning forms): each has its own size guard (seed C17-f: one trait impl lost it)
                 for op in ["and", "or", "xor"] {
-                    for f in 0..10 {
+                    for f in 0..14 {
                         p!(c, "bin D {} {} {} {}", op, f, a.show(), b.show());
                     }
                 }
@@ -1718,5 +1839,106 @@ pub fn generate(prop: &str, thorough: bool, seed: u64) -> Vec<String> {
         "C19" => gen_c19(&mut c),
         _ => {}
     }
+    add_cross_sequences(&mut c);
     c.out
+}
+
+/// size of the object a protocol line works on (number of variables), where the line has one
+fn line_size(t: &[&str]) -> Option<usize> {
+    for s in t.iter().skip(1) {
+        if let Some((a, _)) = s.split_once(':') {
+            if let Ok(n) = a.parse::<usize>() {
+                return Some(n);
+            }
+        }
+    }
+    for s in t.iter().skip(2).take(2) {
+        if let Ok(n) = s.parse::<usize>() {
+            if n <= 32 {
+                return Some(n);
+            }
+        }
+    }
+    None
+}
+
+/// State kept between calls (caches, memos, statics shared by all sizes of a generic type) shows
+/// only in sequences of calls.  The order pass replays the workload backwards; in addition, for
+/// every family of lines (same operation, same type) two-call sequences over DIFFERENT sizes are
+/// appended, in both orders, each on a fresh thread (seeds C10-j, C05-i: walks / results cached per
+/// thread and keyed without the size; C12-k: `Cube::all` answered from a larger cached enumeration).
+fn add_cross_sequences(c: &mut Ctx) {
+    use std::collections::BTreeMap;
+    let saved = c.enter("cross-sequences");
+    let mut fam: BTreeMap<(String, String), BTreeMap<usize, Vec<usize>>> = BTreeMap::new();
+    for (i, l) in c.out.iter().enumerate() {
+        let t: Vec<&str> = l.split_whitespace().collect();
+        if t.len() < 3 || matches!(t[0], "seq" | "hist" | "rnd" | "mip" | "mipilp" | "mipcand" | "canonseq" | "canonused" | "random") {
+            continue;
+        }
+        if let Some(n) = line_size(&t) {
+            // keep the sequences cheap
+            if (t[0] == "npncanon" && n >= 8) || (t[0] == "itera" && n >= 4) || (t[0] == "iter" && n >= 4) || l.len() > 3000 {
+                continue;
+            }
+            fam.entry((t[0].to_string(), t[1].to_string())).or_default().entry(n).or_default().push(i);
+        }
+    }
+    let mut seqs: Vec<String> = Vec::new();
+    for (_, sizes) in fam.iter() {
+        let ns: Vec<usize> = sizes.keys().cloned().collect();
+        if ns.len() < 2 {
+            continue;
+        }
+        let rep = |c: &mut Ctx, n: usize| -> String {
+            let v = &sizes[&n];
+            let i = v[c.rng.below(v.len())];
+            c.out[i].clone()
+        };
+        let mut pairs: Vec<(usize, usize)> = Vec::new();
+        if ns.len() <= 4 {
+            for &a in &ns {
+                for &b in &ns {
+                    if a != b {
+                        pairs.push((a, b));
+                    }
+                }
+            }
+        } else {
+            // neighbours in both orders, plus random pairs
+            for w in ns.windows(2) {
+                // twice, with representatives drawn anew: one unlucky table must not hide a defect
+                for _ in 0..2 {
+                    pairs.push((w[0], w[1]));
+                    pairs.push((w[1], w[0]));
+                }
+            }
+            for _ in 0..ns.len() {
+                let a = ns[c.rng.below(ns.len())];
+                let b = ns[c.rng.below(ns.len())];
+                if a != b {
+                    pairs.push((a, b));
+                }
+            }
+        }
+        for (a, b) in pairs {
+            let la = rep(c, a);
+            let lb = rep(c, b);
+            seqs.push(format!("seq {} ;; {}", la, lb));
+        }
+    }
+    // a bounded number per property, spread over the families
+    let cap = if c.thorough { 1600 } else { 400 };
+    if seqs.len() > cap {
+        let step = seqs.len() as f64 / cap as f64;
+        let mut kept = Vec::new();
+        let mut x = 0.0f64;
+        while (x as usize) < seqs.len() && kept.len() < cap {
+            kept.push(seqs[x as usize].clone());
+            x += step;
+        }
+        seqs = kept;
+    }
+    c.out.extend(seqs);
+    c.leave(saved);
 }
